@@ -6,6 +6,7 @@ CONSTANTS
   MaxWrite = 3
   Variant = "noreset"
   EmitOps = FALSE
+  Backward = FALSE
   EmitEvery = 1
 INVARIANT Inv
 PROPERTY Refines
